@@ -26,9 +26,9 @@ type entry struct {
 }
 
 type Stats struct {
-	Gets, Puts, Batches, Syncs      int
-	GetErrs, PutErrs, CommitErrs    int
-	CorruptReads                    int
+	Gets, Puts, Batches, Syncs   int
+	GetErrs, PutErrs, CommitErrs int
+	CorruptReads                 int
 }
 
 type Store struct {
@@ -37,9 +37,10 @@ type Store struct {
 	m    map[string]string
 	log  []entry
 
-	FailGet    map[int]bool // ordinals of Get calls that fail
-	GetLimit   int          // > 0: Get calls beyond this ordinal fail (bounds traversals of a store made cyclic by corruption)
-	FailCommit map[int]bool // ordinals of batch commits that fail (nothing applied)
+	FailGet    map[int]bool    // ordinals of Get calls that fail
+	FailKeys   map[string]bool // Get of these keys fails (independent of the order in which concurrent readers arrive)
+	GetLimit   int             // > 0: Get calls beyond this ordinal fail (bounds traversals of a store made cyclic by corruption)
+	FailCommit map[int]bool    // ordinals of batch commits that fail (nothing applied)
 	Corrupt    func(k, v []byte) []byte
 	St         Stats
 }
@@ -54,7 +55,7 @@ func (s *Store) Get(k []byte) ([]byte, error) {
 		s.St.GetErrs++
 		return nil, ErrInjected
 	}
-	if s.FailGet[s.St.Gets] {
+	if s.FailGet[s.St.Gets] || s.FailKeys[string(k)] {
 		s.St.GetErrs++
 		return nil, ErrInjected
 	}
